@@ -519,6 +519,10 @@ def _pow_const(f, g):
     """f dual, g a constant."""
     if _integral(g):
         if g == 0:
+            if f.v == 0:
+                # 0**0 == 1 is a convention of the number types; g*f**(g-1)
+                # has a removable singularity there
+                raise DomainSkip("zero-to-the-zero")
             return Dual(f.v ** g, 0 * f.d, f.dep)
         # f.v == 0 and g < 0 raises ZeroDivisionError: undefined
         return Dual(f.v ** g, g * f.v ** (g - 1) * f.d, f.dep)
